@@ -464,7 +464,8 @@ def voicing_measures(ref_voicing, est_voicing):
 
 def _pitch_hits(rc, ec, cent_tolerance, weights, chroma):
     """Per frame: is the estimated pitch correct?  Only frames where both cent
-    values are non-zero are candidates.  STRICT comparison
+    values are non-zero are candidates (a cent value of exactly 0 is the
+    module's "no pitch" marker: hz2cents leaves 0 Hz at 0).  STRICT comparison
     ``deviation < cent_tolerance``.  For chroma the deviation is folded to the
     nearest octave.  Margin: frames with zero weight are not counted."""
     tol = _fr(cent_tolerance)
@@ -486,7 +487,7 @@ def _pitch_hits(rc, ec, cent_tolerance, weights, chroma):
 
 
 def _raw_accuracy(ref_voicing, ref_cent, est_voicing, est_cent, cent_tolerance, chroma):
-    rv, rc, ev, ec = _check_all(ref_voicing, ref_cent, est_voicing, est_cent)
+    rv, rc, _, ec = _check_all(ref_voicing, ref_cent, est_voicing, est_cent)
     # "When input arrays are empty, return 0 by special case.  If there are no
     # voiced frames in reference, metric is 0"
     total = sum((_fr(v) for v in rv), Fraction(0))
